@@ -13,6 +13,7 @@ from ..storejudge import decode_store, in_core_domain, STORE_OPS, underflows_to_
 from . import c01
 
 ID = 'C05'
+TECHNIQUE = 'runtime monitoring: relational oracle over store events (direction, error bound, ties, idempotence, monotonicity computed on Fractions without the reference quantizer)'
 TITLE = 'rounding contracts (relational)'
 RULE = ('store events in the core domain whose input cannot overflow in any mode; per element the mode\'s relation between the '
         'stored value q and the input v is evaluated on Fractions (floor: q<=v<q+LSB; ceil: q-LSB<v<=q; trunc/fix: |q|<=|v|, '
